@@ -370,9 +370,9 @@ class RunLengthArray(NPSIndexable, np.lib.mixins.NDArrayOperatorsMixin):
             return self.__class__(self._events, ufunc(self._values))
         assert len(inputs) == 2, f"Only unary and binary operations supported for runlengtharray {len(inputs)}"
 
-        if isinstance(inputs[1], Number):
+        if isinstance(inputs[1], (Number, np.generic)):
             return self.__class__(self._events, ufunc(self._values, inputs[1]))
-        elif isinstance(inputs[0], Number):
+        elif isinstance(inputs[0], (Number, np.generic)):
             return self.__class__(self._events, ufunc(inputs[0], self._values))
         return self._apply_binary_func(*inputs, ufunc)
 
@@ -637,9 +637,9 @@ class RunLength2dArray(IndexableMixin, np.lib.mixins.NDArrayOperatorsMixin):
             return self.__class__(self._indices, ufunc(self._values), self._row_len)
         assert len(inputs) == 2
 
-        if isinstance(inputs[1], (Number, np.ndarray)):
+        if isinstance(inputs[1], (Number, np.generic, np.ndarray)):
             return self.__class__(self._indices, ufunc(self._values, inputs[1]), self._row_len)
-        elif isinstance(inputs[0], (Number, np.ndarray)):
+        elif isinstance(inputs[0], (Number, np.generic, np.ndarray)):
             return self.__class__(self._indices, ufunc(inputs[0], self._values), self._row_len)
         return NotImplemented
 
